@@ -485,13 +485,13 @@ class Discharger:
         return ok
 
     def _one_index_from_find(self, x, s, allow_plus):
-        if x == ("int", 0) and allow_plus:
-            return True
+        if x == ("int", 0):
+            return True     # s[0..] and s[..0] are in bounds and on a char boundary for every s
         # unwrap_or(map(find.., +1), 0)
         if x[0] == "call" and x[1] in ("Option::unwrap_or", "Option::unwrap_or_default") and x[2]:
             ok = self._opt_index(x[2][0], s, allow_plus)
             if len(x[2]) > 1:
-                ok = ok and (x[2][1] == ("int", 0) and allow_plus)
+                ok = ok and x[2][1] == ("int", 0)
             return ok
         if x[0] == "okval":
             return self._opt_index(x[1], s, allow_plus)
